@@ -41,6 +41,15 @@ func TestProgenSelf(t *testing.T) {
 			{Kind: kind, Prov: 2, User: 2, Imp: "plain", P: []int{1, 0, 0, 8}},
 			{Kind: kind, Prov: 2, User: 1, Imp: "dot", P: []int{2, 2, 2, 2}},
 		}
+		if progen.CrossOnly(kind) {
+			var fs []progen.Feat
+			for _, f := range spec.Feats {
+				if f.Prov != f.User {
+					fs = append(fs, f)
+				}
+			}
+			spec.Feats = fs
+		}
 		prog := progen.Render(spec)
 		dir := filepath.Join(root, "m-"+kind)
 		h.WriteFiles(dir, prog.Files)
